@@ -161,7 +161,7 @@ pub mod uniremote {
         }
     }
 
-    /// byte-level receive side for the wire mode below: the first `avail` bytes of `data[..len]` have arrived (the
+    /// byte-level receive side for the C05 harness: the first `avail` bytes of `data[..len]` have arrived (the
     /// harness raises `avail` through the shared `SegCtl`); one byte per poll_read, Pending when nothing more has
     /// arrived yet. Bytes handed out are gone - like a QUIC receive stream.
     pub struct SegCtl {
@@ -195,41 +195,29 @@ pub mod uniremote {
         }
     }
 
-    /// wire mode: the REAL typestate reader of wtransport-proto over a byte-level model receive stream - the same
-    /// one-line delegation as the real `StreamUniRemoteH3::read_frame` (driver/streams/mod.rs)
+    /// what the real `StreamUniRemoteH3` (driver/streams/mod.rs) holds: the proto typestate and the receive stream
+    /// (used by the C05 harness as a plain holder)
     pub struct Wire {
         pub proto: wtransport_proto::stream::uniremote::StreamUniRemoteH3,
         pub reader: SegReader,
     }
 
-    /// model of `driver::streams::uniremote::StreamUniRemoteH3` (a peer-opened unidirectional H3 stream): either a
-    /// frame-level script, or (wire mode) the real proto reader over bytes
+    /// model of `driver::streams::uniremote::StreamUniRemoteH3` (a peer-opened unidirectional H3 stream): a frame-level
+    /// script. (A byte-level "wire mode" delegating to the real proto reader was tried here and removed: its mere
+    /// presence in `read_frame` dragged the proto async reader into every frame-level harness and exhausted memory.)
     pub struct StreamUniRemoteH3 {
         pub script: ControlScript,
         /// 0 Control, 1 QPackEncoder, 2 QPackDecoder, 3 GREASE (Exercise 0x21)
         pub kind: u8,
         pub recv: ModelRecv,
-        pub wire: Option<Wire>,
     }
 
     impl StreamUniRemoteH3 {
         pub fn control(script: ControlScript) -> Self {
-            Self { script, kind: 0, recv: ModelRecv { oks: 0, end: 1, reset_code: VarInt::from_u32(0), reads: 0 }, wire: None }
-        }
-
-        pub fn control_wire(wire: Wire) -> Self {
-            Self {
-                script: ControlScript { events: [CEv::NotConnected; 3], n: 0, reads: 0 },
-                kind: 0,
-                recv: ModelRecv { oks: 0, end: 1, reset_code: VarInt::from_u32(0), reads: 0 },
-                wire: Some(wire),
-            }
+            Self { script, kind: 0, recv: ModelRecv { oks: 0, end: 1, reset_code: VarInt::from_u32(0), reads: 0 } }
         }
 
         pub async fn read_frame<'a>(&mut self) -> Result<Frame<'a>, ProtoReadError> {
-            if let Some(w) = self.wire.as_mut() {
-                return w.proto.read_frame_async(&mut w.reader).await;
-            }
             self.script.next()
         }
 
